@@ -273,7 +273,8 @@ impl<const M: usize> Sim<M> {
                     self.v("C12", format!("{what}: byte {j} of the zeroed block is {:#x}", s[j]));
                 }
             }
-            self.register(what, p, l.size(), l.align(), true, None);
+            let id = self.register(what, p, l.size(), l.align(), true, None);
+            self.check_excess(what, p, l.size(), len, Some(id));
             self.dup_as_c12(nv);
         }
         self.finish_step(OpKind::Alloc, what, pre, outcome, ptr, l.size());
@@ -358,7 +359,8 @@ impl<const M: usize> Sim<M> {
         if new_align != old.align {
             self.st(St::GrowDiffAlign);
         }
-        let pre = self.pre(None, true);
+        // if a fresh block of the new layout provably fits the current chunk, growing cannot need the global allocator
+        let pre = self.pre(Some(new_l), true);
         let what = if zeroed { "Allocator::grow_zeroed" } else { "Allocator::grow" };
         let res = self.call(|b| unsafe {
             let p = NonNull::new_unchecked(old.ptr as *mut u8);
@@ -389,6 +391,7 @@ impl<const M: usize> Sim<M> {
                 let id = self.fresh_id();
                 unsafe { write_pat(id, p as *mut u8, new_size) };
                 self.add_block(id, p, new_size, new_align, true);
+                self.check_excess(&what2, p, new_size, len, Some(id));
             }
             if p <= old.ptr && old.ptr < p + new_size.max(1) {
                 self.st(St::GrowInPlace);
@@ -428,7 +431,7 @@ impl<const M: usize> Sim<M> {
         if new_align != old.align {
             self.st(St::GrowDiffAlign);
         }
-        let pre = self.pre(None, true);
+        let pre = self.pre(Some(new_l), true);
         let what = "Allocator::shrink";
         let res = self.call(|b| unsafe { b.shrink(NonNull::new_unchecked(old.ptr as *mut u8), old_l, new_l).ok().map(|p| (p.as_ptr() as *mut u8 as usize, p.len())) });
         let (outcome, r) = self.post_call(OpKind::Shrink, what, res, pre);
@@ -448,6 +451,7 @@ impl<const M: usize> Sim<M> {
                 let id = self.fresh_id();
                 unsafe { write_pat(id, p as *mut u8, new_size) };
                 self.add_block(id, p, new_size, new_align, true);
+                self.check_excess(&what2, p, new_size, len, Some(id));
             }
             if p == old.ptr {
                 self.st(St::ShrinkNoop);
